@@ -58,7 +58,8 @@ Definition gen_sv_params : Serve.sv_params :=
 Definition gen_kill_params : Kill.kparams :=
   {| Kill.kp_grace := match kill_timers with g :: _ => g | [] => 0%Z end;
      Kill.kp_rpc_deadline := grpc_shutdown_deadline;
-     Kill.kp_keepalive := yamux_keepalive_bound |}.
+     Kill.kp_keepalive := yamux_keepalive_bound;
+     Kill.kp_kill_ctx_fresh := kill_ctx_background |}.
 
 Definition gen_tls_params : Tls.tparams :=
   {| Tls.tp_host_cfg_at_start := tls_host_cfg_at_start;
@@ -98,7 +99,8 @@ Definition gen_sf_params : sf_params :=
   {| sf_records_first := start_records_runner_before_start;
      sf_kill_forces := kill_force_kills && kill_returns_without_runner_or_id;
      sf_kill_removes_dir := kill_defers_dir_removal;
-     sf_kill_forgets := kill_forgets_runner |}.
+     sf_kill_forgets := kill_forgets_runner;
+     sf_start_kill_ctx_fresh := start_kill_ctx_background |}.
 
 Definition gen_lo_params : lo_params :=
   {| lo_counted := launch_options_counted;
